@@ -716,7 +716,22 @@ class StmtMixin:
         tup_aux = None
         if not is_list:
             # tuples are immutable: one ground name for the item array / length for the whole loop
-            tup_aux = src.aux if src.aux is not None else (z3.simplify(z3.Select(entry.heap["t_item"], a)), z3.simplify(entry.t_len(a)))
+            if src.aux is not None and z3.is_const(src.aux[0]) and src.aux[0].decl().kind() == z3.Z3_OP_UNINTERPRETED:
+                tup_aux = src.aux
+            elif src.aux is not None:
+                it_c, ln_c = fresh("titems", IV), fresh("tlen", I)
+                entry.assume(it_c == src.aux[0], ln_c == src.aux[1], it_c == z3.Select(entry.heap["t_item"], a), ln_c == entry.t_len(a))
+                entry.defs.append(it_c == src.aux[0])
+                entry.defs.append(ln_c == src.aux[1])
+                tup_aux = (it_c, ln_c)
+            else:
+                # named once (plain constants): the item array / length appear in patterns of loop invariants, where merged (If) terms
+                # are not allowed
+                it_c, ln_c = fresh("titems", IV), fresh("tlen", I)
+                entry.assume(it_c == z3.Select(entry.heap["t_item"], a), ln_c == entry.t_len(a))
+                entry.defs.append(it_c == z3.Select(entry.heap["t_item"], a))
+                entry.defs.append(ln_c == entry.t_len(a))
+                tup_aux = (it_c, ln_c)
             src = SV(src.t, src.ty, tup_aux)
         for (name, f) in inv(self.loop_ctx(entry, entry, {"i": i0, "src": src})):
             self.oblige(entry, "inv-init", name, f, anchor)
